@@ -16,6 +16,13 @@ COMMON_NOTE = (
 
 # id -> (level category, level text, technique, design ref, extra note)
 CLAIMED = {
+    "C10": (
+        "proof",
+        "Contracts on the four TMC kernels, the TMC base class (__init__, get_result dispatch, _convolve_FX, _h2/_g2/_k1/_k2/_h3) and the nine _get_result_* methods of ESFTMC_F2/FL/F3/g1: with symbolic x, Q2, M2 (rho as a sqrt atom), abstract structure functions and abstract integrals whose weight class is decided semantically from the kernel the code passes, every result equals the literature formula in spec/tmc.py (own kind, own heavyness, shifted point xi), APFEL = exact minus the nested integral, M=0 gives the uncorrected F(x), xi below the grid raises ValueError.",
+        "contract-based deductive verification: symbolic execution + exact normaliser in Q(atoms) with sqrt relation + z3 definedness",
+        "DESIGN 4 C10",
+        "spec typed from Schienbein et al./Bluemlein-Tkabladze; L-cov hand-proved; structure functions, integrals and basis support are contract stubs.",
+    ),
     "C06": (
         "proof",
         "Contracts on update_fns (threshold/ZM table per scheme, unknown scheme rejected), on the Atlas wiring of Runner.__init__ (walls = m_q^2 k_q^2 from the updated card, symbolic in ZM-VFNS), on Combiner.__init__ and on the nf handed to the scale-variation manager; the real eko.nf_default/numpy code is executed symbolically in Q2 on each scheme's real Atlas and z3 proves nf = 3 + #{s_q <= Q2} on every path (equality paths included) resp. nf = NfFF for every Q2>0; AST read-set lemma: the Atlas is read only in Combiner.__init__.",
